@@ -226,7 +226,12 @@ impl<F: Seek> Directory<F> {
         let index_within_sector = stream_id % dir_entries_per_sector;
         let mut directory_sector = self.dir_start_sector;
         for _ in 0..(stream_id / dir_entries_per_sector) {
-            debug_assert_ne!(directory_sector, consts::END_OF_CHAIN);
+            if directory_sector == consts::END_OF_CHAIN {
+                invalid_data!(
+                    "Directory chain ends before the sector of entry {}",
+                    stream_id
+                );
+            }
             directory_sector = self.allocator.next(directory_sector)?;
         }
         self.allocator.seek_within_subsector(
